@@ -199,3 +199,12 @@ def exists(lo, hi, pred):
 
 def ite(c, a, b):
     return a if c else b
+
+
+class SetSeq(Shape):
+    """A python set of records of symbolic size: an arbitrary enumeration without duplicates
+    (w.r.t. the records' __eq__).  Iteration order is therefore arbitrary, as in python."""
+    kind = "setseq"
+
+    def __init__(self, elem):
+        self.elem = elem
